@@ -168,6 +168,14 @@ def run(pid, tier, replay_file=None):
                                           for s, x in ob["dobs"]) + ">>"
                     add_event(si, vi, '[id |-> @ID@, p |-> "C05", doc |-> %s, v |-> %s, kind |-> "ok", out |-> %s, dobs |-> %s]'
                               % (doc_tla(), tlajson_to_tla(tagged_values[vi]), _out(o), dl))
+                # the same document dictionary parsed a second time
+                ao = ob["again_calls"][vi] if ob.get("again_calls") else None
+                if ao is not None and st.get("dobs") and ao["kind"] == "ok" and not (
+                        o["kind"] == "ok" and codec.norm_real(ao["out"]) == codec.norm_real(o["out"])):
+                    dl = "<<" + ", ".join("<<%s, %s>>" % (codec.tla_str(s), obs_to_tla(x))
+                                          for s, x in ob["dobs"]) + ">>"
+                    add_event(si, ("again", vi), '[id |-> @ID@, p |-> "C05", doc |-> %s, v |-> %s, kind |-> "ok", out |-> %s, dobs |-> %s]'
+                              % (doc_tla(), tlajson_to_tla(tagged_values[vi]), _out(ao), dl))
                 # the same declarations entered with properties.update(...)
                 uo = ob["upd_calls"][vi] if ob.get("upd_calls") else None
                 if uo is not None and uo["kind"] == "ok" and not (
@@ -190,6 +198,18 @@ def run(pid, tier, replay_file=None):
                 edef_same = False
             np_same = edef_same and same_call(ob["np"], st["np"]) and (
                 ob["dconv"] is None or same_call(ob["dconv"], st["dconv"]))
+            an = ob.get("again_np")
+            def _same_real(a, b):      # two REAL observations
+                if a["kind"] != b["kind"]:
+                    return False
+                return a["kind"] != "ok" or codec.norm_real(a["out"]) == codec.norm_real(b["out"])
+            if an is not None and not _same_real(an, ob["np"]):
+                try:
+                    add_event(si, "np-again", '[id |-> @ID@, p |-> "C05np", doc |-> %s, edef |-> %s, np |-> %s, dconv |-> %s]'
+                              % (doc_tla(), codec.py_to_tla(ob["edef"]), obs_to_tla(an),
+                                 obs_to_tla(ob["dconv"] or {"kind": "reject", "out": None})))
+                except ValueError:
+                    pass
             if np_same:
                 if st["m05np"]:
                     rep.violation(("C05np", _kwsig(st["doc"])),
@@ -287,7 +307,13 @@ def run(pid, tier, replay_file=None):
                               f"{json.dumps(pyvals[tag])[:80]}", dict(schema=d, value_index=tag))
                 continue
             st, ob = states[si], observations[si]
-            if isinstance(tag, tuple) and tag[0] == "upd":
+            if isinstance(tag, tuple) and tag[0] == "again":
+                o = ob["again_calls"][tag[1]]
+                rep.violation((pid + "-second-parse", _kwsig(st["doc"])),
+                              f"observation rejected by R_{pid}: the document dictionary of "
+                              f"{json.dumps(codec.schema_to_json(st['doc']))[:160]} parsed a second time builds from "
+                              f"{json.dumps(pyvals[tag[1]])[:80]}: {_short(o)}", _payload(st, tag[1], o))
+            elif isinstance(tag, tuple) and tag[0] == "upd":
                 o = ob["upd_calls"][tag[1]]
                 rep.violation((pid + "-update", _kwsig(st["doc"])),
                               f"observation rejected by R_{pid}: the declarations of "
